@@ -4,7 +4,7 @@
    Overflow / underflow / cancellation are binary64 phenomena outside the
    exact-arithmetic model (partial; watched on the implementation). *)
 From Coq Require Import List Bool Arith Reals.
-From ART Require Import Num NumR Vec Search Kernel BaseArt Total Total_R Total_fit Fuzzy ART2A ART1 ART1_total Hyper Bounds_R Hyper_total Ellip_total Gauss Gauss_total.
+From ART Require Import Num NumR Vec Search Kernel BaseArt Total Total_R Total_fit Fuzzy ART2A ART1 ART1_total Hyper Bounds_R Hyper_total Ellip_total Gauss Gauss_total DualVig DualVig_total Topo Topo_total.
 Import ListNotations.
 Open Scope nat_scope.
 
@@ -91,6 +91,21 @@ Theorem C04_gaussian_fit_total :
     valid (@gaussK RN sigma_init alpha) s X = true -> Forall (fun x => length x = d) X ->
     fit (@gaussK RN sigma_init alpha) s X veto m eps <> None.
 Proof. exact gauss_fit_total. Qed.
+(* ---- compound estimators: TopoART and DualVigilanceART over Fuzzy ART (alpha > 0) are defined on every data set
+        that passes validation, from every state the API can reach ---- *)
+Theorem C04_topoart_fit_total :
+  forall (alpha beta beta_lower : R) tau phi (s : topo (N:=RN)) X veto mode eps,
+    0 < alpha -> valid (@fuzzyK RN alpha beta) (TB s) X = true -> Forall (fun x => (2 <= length x)%nat) X ->
+    topo_fit (@fuzzyK RN alpha beta) (@fuzzyK RN alpha beta_lower) tau phi s X veto mode eps <> None.
+Proof. exact topo_fuzzy_fit_total. Qed.
+Theorem C04_dualvigilance_fit_total :
+  forall (alpha beta : R) (s : dv (N:=RN)) X veto mode eps lb,
+    0 < alpha -> valid (@fuzzyK RN alpha beta) (DB s) X = true -> Forall (fun x => (2 <= length x)%nat) X ->
+    dv_fit (@fuzzyK RN alpha beta) s X veto mode eps lb <> None /\
+    (DOk s -> dv_partial_fit (@fuzzyK RN alpha beta) s X veto mode eps lb <> None).
+Proof. exact dv_fuzzy_fit_total. Qed.
+Print Assumptions C04_topoart_fit_total.
+Print Assumptions C04_dualvigilance_fit_total.
 Print Assumptions C04_fuzzy_total.
 Print Assumptions C04_fuzzy_fit_total.
 Print Assumptions C04_hypersphere_fit_total.
